@@ -25,19 +25,19 @@ const (
 
 // signer kinds
 const (
-	sIssuer       = "issuer"              // signed by the issuing CA itself
-	sDelegated    = "delegated"           // responder cert issued by the CA with the OCSPSigning EKU, embedded
-	sDelegatedNoE = "delegated-no-eku"    // responder cert issued by the CA without the EKU, embedded
-	sDelegatedAny = "delegated-any-eku"   // responder cert issued by the CA whose EKU is anyExtendedKeyUsage only: no OCSP delegation (RFC 6960 4.2.2.2)
-	sDelegatedOth = "delegated-other-eku" // responder cert issued by the CA with clientAuth+serverAuth only
-	sDelegatedMix = "delegated-multi-eku" // responder cert issued by the CA with serverAuth AND OCSPSigning: a legitimate delegate
-	sClientCert   = "client-cert"         // signed with the client's own certificate/key, embedded
-	sClientBare   = "client-cert-bare"    // signed with the client's own key, nothing embedded (the client certificate is part of the verified chain)
-	sStrangerEmb  = "stranger-embedded"   // self-signed stranger, certificate embedded
-	sStrangerBare = "stranger-bare"       // self-signed stranger, nothing embedded
-	sSibling      = "sibling"             // CA with the issuer's name but another key
-	sLookalike    = "lookalike-embedded"  // self-signed certificate copying the issuer's name AND subjectKeyIdentifier, own key, embedded
-	sLookalikeBare = "lookalike-bare"     // the same, not embedded
+	sIssuer        = "issuer"              // signed by the issuing CA itself
+	sDelegated     = "delegated"           // responder cert issued by the CA with the OCSPSigning EKU, embedded
+	sDelegatedNoE  = "delegated-no-eku"    // responder cert issued by the CA without the EKU, embedded
+	sDelegatedAny  = "delegated-any-eku"   // responder cert issued by the CA whose EKU is anyExtendedKeyUsage only: no OCSP delegation (RFC 6960 4.2.2.2)
+	sDelegatedOth  = "delegated-other-eku" // responder cert issued by the CA with clientAuth+serverAuth only
+	sDelegatedMix  = "delegated-multi-eku" // responder cert issued by the CA with serverAuth AND OCSPSigning: a legitimate delegate
+	sClientCert    = "client-cert"         // signed with the client's own certificate/key, embedded
+	sClientBare    = "client-cert-bare"    // signed with the client's own key, nothing embedded (the client certificate is part of the verified chain)
+	sStrangerEmb   = "stranger-embedded"   // self-signed stranger, certificate embedded
+	sStrangerBare  = "stranger-bare"       // self-signed stranger, nothing embedded
+	sSibling       = "sibling"             // CA with the issuer's name but another key
+	sLookalike     = "lookalike-embedded"  // self-signed certificate copying the issuer's name AND subjectKeyIdentifier, own key, embedded
+	sLookalikeBare = "lookalike-bare"      // the same, not embedded
 )
 
 type Responder struct {
